@@ -96,7 +96,6 @@ NC_reset_maxopenfiles(int req_max)
     int  alloc_size;
     NC **newlist = NULL;
     int  i;
-    int  old_idx, new_idx; /* indices for the _cdfs list and the new list */
     int  ret_value = 0;
 
     /* Verify arguments */
@@ -142,6 +141,14 @@ NC_reset_maxopenfiles(int req_max)
         HGOTO_DONE(_cdfs_size);
     }
 
+    /* The list cannot become shorter than the highest position in use, since the
+       files keep their positions */
+    if (req_max < _ncdf) {
+        NCadvise(NC_EINVAL, "Request max %d must not be less than the highest file slot in use %d.  Keep current size.",
+                 req_max, _ncdf);
+        HGOTO_DONE(_cdfs_size);
+    }
+
     /* If the requested max exceeds system limit, only allocate up to system limit */
     if (req_max > sys_limit)
         alloc_size = sys_limit;
@@ -164,11 +171,11 @@ NC_reset_maxopenfiles(int req_max)
     for (i = 0; i < alloc_size; i++)
         newlist[i] = NULL;
 
-    /* Transfer all non-NULL pointers over to the new list and deallocate the
-       old list of pointers */
-    for (old_idx = 0, new_idx = 0; old_idx < _cdfs_size && new_idx < alloc_size; old_idx++)
-        if (_cdfs[old_idx] != NULL)
-            newlist[new_idx++] = _cdfs[old_idx];
+    /* Transfer all pointers over to the new list, each at its old position (the
+       position is what the file ids handed out to the application refer to),
+       and deallocate the old list of pointers */
+    for (i = 0; i < _cdfs_size && i < alloc_size; i++)
+        newlist[i] = _cdfs[i];
     free(_cdfs);
 
     /* Set _cdfs to the new list */
